@@ -711,6 +711,13 @@ def control_battery():
                 "repeat(1) still opens the scope of its counter", default_answer=[0]))
     b.append(sc("A B Y\nlet acc = 10;\nloop(i,4)\nlet acc = acc + i + 1;\n(i) (acc) X\nend loop\n10 99 X\n",
                 [(0, 11), (1, 13), (2, 16), (3, 20), (10, 99)], "a let in a loop body accumulates across iterations", default_answer=[0]))
+    # seventh round: an expression error inside a loop body is one error item; the loop goes on with the next pass
+    b.append(Scenario("A B Y\nloop(i,4)\n(8 / (i - 1)) (i) X\nend loop\n9 9 X\n", S, default_answer=[0], stop_on_err=False, max_rows=50,
+                      expect={"row_inputs": [["248", "0"], ["8", "2"], ["4", "3"], ["9", "9"]], "items": ["row", "err", "row", "row", "row"]},
+                      note="division by zero in the second of four passes: the other passes and the row after the loop still run"))
+    b.append(Scenario("A B Y\nloop(i,2)\nrepeat(3) (6 / (n - i)) (n) X\nend loop\n1 1 X\n", S, default_answer=[0], stop_on_err=False, max_rows=50,
+                      expect={"row_inputs": [["6", "1"], ["3", "2"], ["250", "0"], ["6", "2"], ["1", "1"]], "items": ["err", "row", "row", "row", "err", "row", "row"]},
+                      note="errors inside a repeat nested in a loop"))
     # seventh round: passes of a while body that reach no row (lets only; an inner loop with bound 0) - the condition is
     # evaluated again all the same
     b.append(sc("A B Y\nlet n = 90;\nlet r = 0;\nwhile((r + 1) * (r + 1) <= n)\nlet r = r + 1;\nend while\n(r) (n) X\n", [(9, 90)],
